@@ -34,7 +34,7 @@ SPEC = dict(
     rule="cases = (85%) timed cluster histories on 2-5 real RedisPubsubPeers in one process: node start, refresh ticks of the real "
          "Ready() goroutine (hand-fired ticker), graceful stop (real stop()), crash, restarts under a new instance id, every published "
          "message delivered to every running node's real listen callback after a harness-chosen delay in [0,d] (0 and d over-weighted; "
-         "order across messages arbitrary), GetPeers of the nodes observed after every step and at the exact expiry instants (+1 ns); "
+         "order across messages arbitrary), GetPeers of the nodes, and the list last seen by a callback registered with RegisterUpdatedPeersCallback, observed after every step and at the exact expiry instants (+1 ns); "
          "25% of them 'chaos' (lost / late / duplicated deliveries, skipped refreshes, junk and old-format messages, odd ids) where only "
          "model = implementation is compared; (15%) codec streams of arbitrary byte strings through marshal/unmarshal. "
          "non-trivial = a codec case with an enc op, or a cluster history with >= 2 nodes, a refresh and a delivery that runs past "
@@ -45,7 +45,8 @@ SPEC = dict(
     assumptions=["Redis delivers every published message to every subscribed node within d (<= 6 s for the instantiated theorems) - real Redis pub/sub is at-most-once; loss is outside the theorems (exercised only as model = implementation in chaos cases)",
                  "instance ids are unique among nodes; a live node publishes no unregister",
                  "each listen / GetPeers call is atomic (MapWithTTL holds its mutex per method; concurrent callbacks of pubsub_goredis are modelled as an arbitrary order of atomic steps)",
-                 "the change-notification callbacks of checkHash (wyhash of the id list) are not modelled"],
+                 "checkHash's hash (wyhash chained over the id list) is a parameter: the model compares id lists, i.e. assumes the hash is injective on the lists that occur and never 0; an empty instance id is excluded (hashing no bytes returns the seed, so it does not change the hash) - ids are 8 hex digits in main.go",
+                 "registered callbacks run in goroutines of their own; the harness awaits them, so 'what the callback saw' is GetPeers() immediately after the handled message"],
     manifest=dict(
         text="Lean theorems over every event list a node can experience (any order of deliveries, delays <= d, GetPeers calls anywhere): "
              "presence = most recently handled command is a register no older than PeerEntryTimeout; stale entries gone after T0+d+TTL; live, "
